@@ -26,6 +26,14 @@ CLAIMED = {
         "text": "bounded: 7 @defer families x symbolic if: variables x outcome deviations x every completion order of groups; arrival-order merge equals a defer-aware reference, delivery rules (path delivered before, hasNext, once per (path,label), termination); two genuine defects are recorded as known findings",
         "design_ref": "DESIGN.md section 4, C13", "note": _N + _PROBE, "technique": _T + "; schedule exploration, gated native replay of completion orders",
     },
+    "C16": {
+        "text": "bounded: introspection wrappers on harness-built definitions with symbolic @deprecated/description/default on every field, argument, input field, enum value, directive argument; generated __schema/__type resolvers behind aliases/fragments/@include with DisableIntrospection symbolic",
+        "design_ref": "DESIGN.md section 4, C16", "note": _N + "; arbitrary schemas and byte-level SDL reconstruction are outside the bound", "technique": _T,
+    },
+    "C20": {
+        "text": "bounded: generated __resolve_entities / resolveEntity / resolveManyEntities on lists of up to 2 (quick) / 3 (thorough) representations over 11 shapes with at most one failing lookup; every completion order of groups and entity goroutines with a happens-before race check on the result list; one genuine defect (multi resolver with several keys) is a known finding",
+        "design_ref": "DESIGN.md section 4, C20", "note": _N + _PROBE, "technique": _T + "; schedule exploration",
+    },
     "C06": {
         "text": "bounded schedule exploration: every order of enabled tasks at blocking points (plus preemptions at synchronisation operations in the invalids harness) is a decision of the explorer; on each schedule the response equals the schedule-free reference and a vector-clock happens-before check covers every load/store; mutation root fields proven serial on every schedule",
         "design_ref": "DESIGN.md section 4, C06", "note": _N + _PROBE + "; race counterexamples are confirmed with go test -race", "technique": _T + "; happens-before race detection over explored schedules",
